@@ -58,10 +58,10 @@ GATES = {
             (r"^gate\.c09\.refused\.(insert|typed-setter|set_socket|remove_insert|set_seq)$", 1, "per"), (r"^gate\.build-ok-size\.small$", 1, "sum"),
             (r"^gate\.fail\.build\.size$", 1, "sum")],
     "C10": [(r"^fault-len1-histories$", 50, "sum"), (r"^c10\.evals$", 1000, "sum"), (r"^c10\.same-key-pairs$", 100, "sum"), (r"^accepted\.(k256|libsecp256k1|ed25519|combined)$", 1, "per")],
-    "C11": [(r"^concurrent-decodes$", 200, "sum"), (r"^direct-key-api$", 10, "sum"), (r"^cls\.ed-small-order-key\.", 10, "sum"),
+    "C11": [(r"^key-api-stress-rounds$", 20000, "sum"), (r"^concurrent-decodes$", 200, "sum"), (r"^direct-key-api$", 10, "sum"), (r"^cls\.ed-small-order-key\.", 10, "sum"),
             (r"^c11\.compared-accepting\.(k256-libsecp256k1|k256-combined|libsecp256k1-combined|ed25519-combined)$", 1, "per"),
             (r"^c11\.isolation-checks$", 100, "sum"), (r"^c11\.precedence-checks$", 10, "sum"), (r"^c11\.cross-redecode\.", 100, "sum")],
-    "C12": [(r"^text\.codepoint-sweep\.", 1000, "sum"), (r"^text\.non-string-json\.reject$", 10, "sum"),
+    "C12": [(r"^concurrent-parses$", 200, "sum"), (r"^text\.codepoint-sweep\.", 1000, "sum"), (r"^text\.non-string-json\.reject$", 10, "sum"),
             (r"^text\.(canonical|canonical-noprefix)\.accept$", 1, "per"),
             (r"^text\.(other-prefix|padding|whitespace|foreign-character|trailing-bits|bytes-after-record)\.reject$", 1, "per")],
     "C13": [(r"^cls\.tiny-item\.|^stream\.invalid-item\.reject$", 100, "sum"), (r"^concurrent-decodes$", 200, "sum"), (r"^stream\.size-sweep$", 100, "sum"), (r"^stream\.mixed-sequences$", 10, "sum"), (r"^stream\.embedded-records$", 5, "sum"), (r"^stream\.encoded-lists$", 10, "sum"), (r"^stream\.valid-after-refused$", 10, "sum"), (r"^stream\.reverse-pass$", 5, "sum"),
